@@ -551,6 +551,9 @@ fn compute_intersection_residue_class(
         Ok(None)
     } else {
         let lcm = (stride_left / gcd) * stride_right;
+        // Use non-negative representatives of the bases,
+        // since the division and remainder of negative numbers round towards zero.
+        let (base_left, base_right) = (base_left.rem_euclid(lcm), base_right.rem_euclid(lcm));
         // The residue class of the intersection is computed such that the following equations hold:
         // ```
         // residue_class = base_right   (modulo stride_right)
